@@ -69,6 +69,7 @@ pub struct Stats {
     pub max_pointer_target: usize,
     pub trailing: usize,
     pub len: usize,
+    pub max_name_wire_len: usize,
 }
 
 pub struct Decoder<'a> {
@@ -192,9 +193,7 @@ impl<'a> Decoder<'a> {
                 _ => return Err(format!("label type {:#x} at {}", l, pos)),
             }
         }
-        if self.strict && wire_len + 1 > 255 {
-            return Err(format!("name at {} expands to {} octets (> 255)", start, wire_len + 1));
-        }
+        self.stats.max_name_wire_len = self.stats.max_name_wire_len.max(wire_len + 1);
         for s in new_starts {
             self.label_starts.insert(s);
         }
@@ -652,4 +651,127 @@ pub fn gen_rr(r: &mut Rng, names: &[Name], max_opaque: usize) -> Rr {
         },
         rdata: gen_rdata(r, rtype, names, max_opaque),
     }
+}
+
+/// A query as a client would send it.
+pub fn gen_query(r: &mut Rng, name: Name, hostile: bool) -> Msg {
+    let qtype = match r.below(8) {
+        0 => *r.pick(&NAME_TYPES),
+        1 => 28,
+        2 => 16,
+        3 if hostile => r.u16(),
+        _ => 1,
+    };
+    let qtype = if qtype == 255 || qtype == 41 { 1 } else { qtype };
+    let opt = if r.chance(2, 3) {
+        let mut options = Vec::new();
+        if r.chance(1, 3) {
+            options.push((10u16, r.bytes(8)));
+        }
+        if r.chance(1, 5) {
+            options.push((3u16, vec![]));
+        }
+        if r.chance(1, 6) {
+            options.push((8u16, vec![0, 1, 24, 0, 192, 0, 2]));
+        }
+        Some(Opt {
+            udp_size: *r.pick(&[512u16, 1232, 4096, 65535, 1400, 0, 256]),
+            ext_rcode: 0,
+            version: 0,
+            flags: if r.bool() { 0x8000 } else { 0 },
+            options,
+        })
+    } else {
+        None
+    };
+    let mut flags = 0x0100u16; // RD
+    if r.chance(1, 4) {
+        flags |= 0x0010; // CD
+    }
+    if r.chance(1, 8) {
+        flags |= 0x0020; // AD
+    }
+    Msg {
+        id: r.u16(),
+        flags,
+        questions: vec![Question {
+            name,
+            qtype,
+            qclass: if hostile && r.chance(1, 10) { 3 } else { 1 },
+        }],
+        opt,
+        ..Default::default()
+    }
+}
+
+/// An upstream reply to `q` with `nrec` records spread over the three sections.
+pub fn gen_reply(r: &mut Rng, q: &Msg, nrec: usize, max_opaque: usize, hostile_names: bool) -> Msg {
+    let mut names = gen_name_pool(r, 3 + nrec.min(40) / 2, hostile_names);
+    if let Some(qq) = q.questions.first() {
+        names.push(qq.name.clone());
+        for i in 1..qq.name.len() {
+            names.push(qq.name[i..].to_vec());
+        }
+    }
+    let rcode = match r.below(6) {
+        0 => r.below(16) as u16,
+        1 => 3,
+        _ => 0,
+    };
+    let mut flags = 0x8000 | (q.flags & 0x0100) | 0x0080 | rcode;
+    if r.chance(1, 4) {
+        flags |= 0x0400; // AA
+    }
+    if r.chance(1, 6) {
+        flags |= 0x0020; // AD
+    }
+    if q.flags & 0x0010 != 0 {
+        flags |= 0x0010;
+    }
+    let mut m = Msg {
+        id: q.id,
+        flags,
+        questions: q.questions.clone(),
+        ..Default::default()
+    };
+    let split = match r.below(5) {
+        0 => (nrec, 0),
+        1 => (0, nrec),
+        _ => {
+            let a = r.usize(nrec + 1);
+            let b = r.usize(nrec - a + 1);
+            (a, b)
+        }
+    };
+    for i in 0..nrec {
+        let rr = gen_rr(r, &names, max_opaque);
+        if rr.rtype == 41 {
+            continue;
+        }
+        if i < split.0 {
+            m.answer.push(rr);
+        } else if i < split.0 + split.1 {
+            m.authority.push(rr);
+        } else {
+            m.additional.push(rr);
+        }
+    }
+    if r.chance(3, 4) {
+        let mut options = Vec::new();
+        if r.chance(1, 4) {
+            options.push((15u16, vec![0, r.below(25) as u8, b'x']));
+        }
+        m.opt = Some(Opt {
+            udp_size: *r.pick(&[512u16, 1232, 4096]),
+            ext_rcode: if r.chance(1, 10) { r.below(3) as u8 } else { 0 },
+            version: 0,
+            flags: if q.opt.as_ref().map(|o| o.flags & 0x8000 != 0).unwrap_or(false) { 0x8000 } else { 0 },
+            options,
+        });
+    }
+    m
+}
+
+pub fn rr_brief(rr: &Rr) -> String {
+    format!("{} t{} c{} ttl{} rd{}", name_to_string(&rr.name), rr.rtype, rr.class, rr.ttl, rr.rdata.len())
 }
